@@ -73,6 +73,56 @@ LOOPSTEP2 = """sub:
         acc: o2
       outputMethod: %(method)s
 """
+SKIPIN = """cwlVersion: v1.2
+class: Workflow
+$namespaces:
+  cwltool: "http://commonwl.org/cwltool#"
+requirements:
+  InlineJavascriptRequirement: {}
+inputs:
+  i1: int
+  lim: int
+outputs:
+  o1:
+    type: Any
+    outputSource: sub/o1
+steps:
+  pre:
+    run:
+      class: ExpressionTool
+      inputs:
+        x: int
+      outputs:
+        y: int?
+      expression: >
+        ${return {'y': inputs.x};}
+    when: $(inputs.x > 100000)
+    in:
+      x: i1
+    out: [y]
+  sub:
+    run:
+      class: ExpressionTool
+      inputs:
+        i1: int
+        lim: int
+        extra: int?
+      outputs:
+        o1: int
+      expression: >
+        ${return {'o1': inputs.i1 + 1};}
+    in:
+      i1: i1
+      lim: lim
+      extra: pre/y
+    out: [o1]
+    requirements:
+      cwltool:Loop:
+        loopWhen: $(inputs.i1 < inputs.lim)
+        loop:
+          i1: o1
+        outputMethod: %(method)s
+"""
 SCATTER = """scatter:
   run:
     class: Workflow
@@ -175,7 +225,13 @@ class C06(Prop):
         "network (k-port LoopCombinatorStep with per-port checklists and the dot-product join, lock-step loop-when, k "
         "back-propagation and m output forwarders, m loop output steps, the terminator's join over the m outputs); every "
         "(input, output) projection is proved to move by the moves of Loop/NetG.v, for which both invariants are re-proved. "
-        "Remaining scope limits: COMPLETED termination tokens only (any other status clears the checklists: failure path), "
+        "Statuses: the network models termination tokens of any status other than FAILED/CANCELLED alike (ATerm); the step and "
+        "network theorems state the loop output step's final status as a function of the status [tst] the termination token "
+        "carries -- COMPLETED, or SKIPPED, which is what the real engine delivers when no instance iterates (the loop-when step "
+        "puts nothing on its output ports), observed on the engine and recorded in C06_loop_network_k_nonvacuous -- but which "
+        "of the two the wiring delivers is not derived in the model. FAILED/CANCELLED (the checklists are cleared: failure "
+        "path) are outside the model. Before the fix recorded in known/C06.txt the combinator step cleared its checklist on "
+        "SKIPPED too, and a loop with an input coming from a skipped conditional step hung. Other scope limits: "
         "a body and forwarders emitting one token per token with the same tag, a deterministic body, instances of equal tag "
         "depth, loop variables that all enter the combinator (valueFrom/default transformers on loop inputs not modelled). "
         "Tied to the code by correspondence: loop output steps, LoopCombinatorStep with 1, 2 and 3 ports, LoopCombinator "
@@ -258,6 +314,12 @@ class C06(Prop):
                       for _ in range(rng.randrange(1, 5) if scat else 1)]
             cases.append({"f": "wf", "method": rng.choice(["all", "last"]), "scatter": scat, "starts": starts,
                           "lim": lim, "sched": rng.randrange(0, 10**6), "vars": rng.choice([1, 1, 2])})
+        # a loop one of whose inputs comes from a SKIPPED conditional step (data followed by TerminationToken(SKIPPED))
+        for _ in range({"quick": 2, "thorough": 6, "extended": 3}[tier]):
+            lim = rng.choice([1, 3, 11])
+            cases.append({"f": "wf", "method": rng.choice(["all", "last"]), "scatter": False,
+                          "starts": [max(0, lim - self._count(rng))], "lim": lim, "sched": rng.randrange(0, 10**6),
+                          "vars": 1, "skipin": True})
         return cases
 
     def _raw(self, rng):
@@ -306,7 +368,7 @@ class C06(Prop):
         arr, term_put = [], False
         while any(seqs):
             if firsts_left == 0 and not term_put and rng.random() < 0.3:
-                arr.append(["T"])
+                arr.append(["T"] if rng.random() < 0.6 else ["T", "SKIPPED"])
                 term_put = True
                 continue
             s = rng.choice([s for s in seqs if s])
@@ -314,7 +376,7 @@ class C06(Prop):
                 firsts_left -= 1
             arr.append(s.pop(0))
         if not term_put and (wf or rng.random() < 0.7):
-            arr.append(["T"])
+            arr.append(["T"] if rng.random() < 0.6 else ["T", "SKIPPED"])
         if not wf:
             for _ in range(rng.randrange(1, 4)):
                 junk = rng.choice([["I", self._prefix(rng, depth)], ["E", self._prefix(rng, depth) + ".0"], ["T"],
@@ -340,7 +402,7 @@ class C06(Prop):
             while any(per_inst):
                 q = rng.choice([q for q in per_inst if q])
                 port.append(q.pop(0))
-            port.insert(rng.randrange(len(ps), len(port) + 1), ["T"])
+            port.insert(rng.randrange(len(ps), len(port) + 1), ["T"] if rng.random() < 0.6 else ["T", "SKIPPED"])
             if rng.random() < 0.25:
                 port.insert(rng.randrange(0, len(port) + 1), rng.choice([["I", self._prefix(rng, depth)], ["T"],
                                                                        ["E", rng.choice(ps) + ".0"]]))
@@ -452,7 +514,7 @@ class C06(Prop):
             feed = []
             for a in arr:
                 tok = e.Token(0, tag=a[1]) if a[0] == "E" else e.IterationTerminationToken(a[1]) if a[0] == "I" \
-                    else e.TerminationToken()
+                    else e.TerminationToken(self.Status[a[1]] if len(a) > 1 else self.Status.COMPLETED)
                 if a[0] == "E":
                     await tok.save(ctx.database)
                 feed.append(("x", tok))
@@ -494,7 +556,7 @@ class C06(Prop):
             feed = []
             for i, kind, *rest in c["arr"]:
                 tok = e.Token(0, tag=rest[0]) if kind == "E" else e.IterationTerminationToken(rest[0]) if kind == "I" \
-                    else e.TerminationToken()
+                    else e.TerminationToken(self.Status[rest[0]] if rest else self.Status.COMPLETED)
                 if kind == "E":
                     await tok.save(ctx.database)
                 feed.append((f"x{i}", tok))
@@ -674,6 +736,8 @@ class C06(Prop):
         d = tempfile.mkdtemp(prefix="sfv-c06-", dir="/var/tmp")
         cwd = os.getcwd()
         try:
+            if c.get("skipin"):
+                open(os.path.join(d, "wf.cwl"), "w").write(SKIPIN % {"method": c["method"]})
             two = c.get("vars", 1) == 2       # two loop variables (i1 and an accumulator), output = the accumulator
             loop = (LOOPSTEP2 if two else LOOPSTEP) % {"method": c["method"]}
             if two:
@@ -689,7 +753,8 @@ class C06(Prop):
                 if two:
                     text = text.replace("outputSource: sub/o1", "outputSource: sub/o2")
                 job = {"i1": c["starts"][0], "lim": c["lim"]}
-            open(os.path.join(d, "wf.cwl"), "w").write(text)
+            if not c.get("skipin"):
+                open(os.path.join(d, "wf.cwl"), "w").write(text)
             json.dump(job, open(os.path.join(d, "job.json"), "w"))
             open(os.path.join(d, "streamflow.yml"), "w").write(
                 'version: v1.0\nworkflows:\n  w:\n    type: cwl\n    config:\n      file: wf.cwl\n      settings: job.json\n'
@@ -795,10 +860,10 @@ class C06(Prop):
                 fed = c["arr"][:o["fed"]]
                 started = [a[1] for a in fed if a[0] == "E" and a[1] in c["insts"]]
                 ended = [a[1] for a in fed if a[0] == "I"]
-                if o["fin"] and (["T"] not in fed or any(p not in ended for p in started)):
+                if o["fin"] and (not any(a[0] == "T" for a in fed) or any(p not in ended for p in started)):
                     return ("combinator-early-exit", f"loop combinator step terminated after {fed} although an "
                                                      f"instance it had started was not finished")
-                if not o["fin"] and ["T"] in c["arr"] and all(p in ended for p in c["insts"]):
+                if not o["fin"] and any(a[0] == "T" for a in c["arr"]) and all(p in ended for p in c["insts"]):
                     return ("combinator-terminates", f"loop combinator step still waiting after {c['arr']}")
         if c["f"] == "ckstep":
             if o.get("err"):
@@ -857,6 +922,8 @@ class C06(Prop):
         if c["f"] == "cstep":
             if o.get("err") or not all(TAG.match(a[1]) for a in c["arr"] if a[0] != "T"):
                 return None
+            if any(a[0] == "T" and len(a) > 1 and a[1] in ("FAILED", "CANCELLED") for a in c["arr"]):
+                return None      # the failure path (checklist cleared) is outside the model
             arr = c["arr"][:o["fed"]]
             return (f"CCombStep {coq_list([coq_atok(a) for a in arr])} {coq_list([coq_atok(a) for a in o['out']])} "
                     f"{'true' if o['fin'] else 'false'}")
